@@ -1,5 +1,6 @@
 // Replay runner for C20. `position.rs` of the working tree is compiled verbatim as a module of this
 // binary (its #[cfg(test)] module cut off); dora-parser's compute_line_starts and Span are the real ones.
+mod diag;
 mod docsym;
 mod wssym;
 mod position;
@@ -135,6 +136,64 @@ fn check_symbol(sym: &lsp_types::DocumentSymbol, parent: Option<&lsp_types::Rang
     }
     Ok(n)
 }
+// ---- published diagnostics (compile_project_main of server.rs, cut verbatim into diag.rs; executed, not proved) ----------
+/// items of a well-typed program; `#` = fresh number
+const OK_ITEMS: [&str; 8] = [
+    "fn f#(a: Int64, b: Int64): Int64 { a + b * 2 }", "class C#(pub a: Int64, pub b: String)", "struct S#(Int64, Bool)", "enum E# { A, B(Int64) }",
+    "fn s#(): String { \"hällo 😀 end\" }", "const K#: Int64 = 1;", "/* 😀 é */ fn c#() {}", "fn m#(e: Option[Int64]): Int64 { match e { Some(x) => x, None => 0 } }",
+];
+/// items with exactly the kind of mistake a user makes, placed after non-ASCII text on the same line
+const BAD_ITEMS: [&str; 8] = [
+    "fn e#(): Int64 { let é = \"ü😀\"; true }", "/* 😀😀 */ fn u#(): Int64 { unknown_name }", "fn t#() { let ö: Int64 = \"ä\"; }", "fn d#() { let 😀 = 1; }",
+    "class Ü# { x: UnknownType }", "fn r#(): Bool { \"😀\".size() }", "fn w#() { let a = 1; let é = a.nothing(); }", "fn q#(é: Int64): Strin { é }",
+];
+fn gen_diag_program(rng: &mut Rng) -> String {
+    let n = 1 + rng.below(6);
+    let mut s = String::new();
+    for k in 0..n {
+        let it = if rng.below(3) == 0 { BAD_ITEMS[rng.below(BAD_ITEMS.len())] } else { OK_ITEMS[rng.below(OK_ITEMS.len())] };
+        s.push_str(&it.replace('#', &format!("{}", k)));
+        s.push_str(match rng.below(3) { 0 => "\r\n", 1 => " ", _ => "\n" });
+    }
+    s.push_str("fn main() {}\n");
+    s
+}
+/// contract: every published diagnostic carries the UTF-16 range (position.rs, proved) of its error span
+fn check_diagnostics(text: &str) -> Option<String> {
+    use dora_frontend::sema::{Sema, SemaCreationParams};
+    let main = std::path::PathBuf::from("/vx-c20/main.dora");
+    let expected = std::panic::catch_unwind(|| {
+        let vfs = dora_frontend::Vfs::new().open_file(main.clone(), std::sync::Arc::new(text.to_string()));
+        let mut sa = Sema::new(SemaCreationParams::new().set_program_path(main.clone()).set_vfs(vfs));
+        dora_frontend::check_program(&mut sa);
+        let mut v: Vec<(u32, u32, u32, u32)> = Vec::new();
+        let d = sa.diag.borrow();
+        for e in d.errors().iter().chain(d.warnings().iter()) {
+            if let (Some(fid), Some(span)) = (e.file_id, e.span) {
+                let f = sa.file(fid);
+                if f.path != main { continue; }
+                let r = position::span_to_range(&f.content, &f.line_starts, span);
+                v.push((r.start.line, r.start.character, r.end.line, r.end.character));
+            }
+        }
+        v.sort();
+        v
+    });
+    let expected = match expected { Ok(v) => v, Err(_) => return None }; // a front-end panic on this text is not this clause's business
+    let got = match std::panic::catch_unwind(|| diag::vx_diagnostics(text)) {
+        Ok(d) => d,
+        Err(_) => return Some(format!("compile_project_main panicked at {}", LAST_PANIC.with(|c| c.borrow().clone()))),
+    };
+    let mut g: Vec<(u32, u32, u32, u32)> = got.iter().map(|d| (d.range.start.line, d.range.start.character, d.range.end.line, d.range.end.character)).collect();
+    g.sort();
+    if g != expected {
+        let k = (0..g.len().min(expected.len())).find(|&i| g[i] != expected[i]).unwrap_or(0);
+        return Some(format!("published diagnostic ranges differ from the UTF-16 ranges of the error spans: {} published, {} expected; first difference: published {:?}, expected {:?}",
+                            g.len(), expected.len(), g.get(k), expected.get(k)));
+    }
+    None
+}
+
 /// workspace symbols: every reported location range is ordered and inside the document; no panic
 fn check_ws_symbols(text: &str) -> Option<String> {
     let owned = std::sync::Arc::new(text.to_string());
@@ -196,6 +255,24 @@ fn main() {
             for c in s.children.iter().flatten() { dump(c, d + 1); }
         }
         for s in docsym::vx_scan(std::sync::Arc::new(t)).iter() { dump(s, 0); }
+        return;
+    }
+    if args.len() >= 3 && args[1] == "replay-diag" {
+        let t = from_hex(&args[2]);
+        match check_diagnostics(&t) {
+            Some(w) => { println!("STILL FAILS on the real code: text {:?}: {}", t, w); std::process::exit(1) }
+            None => { println!("text passes on the real code"); std::process::exit(0) }
+        }
+    }
+    if args.len() >= 4 && args[1] == "diag" {
+        let seed: u64 = args[2].parse().unwrap();
+        let count: u64 = args[3].parse().unwrap();
+        let mut rng = Rng(seed.wrapping_mul(0x9E3779B97F4A7C15) | 1);
+        for k in 0..count {
+            let t = gen_diag_program(&mut rng);
+            if let Some(w) = check_diagnostics(&t) { println!("{{\"found\":true,\"tried\":{},\"kind\":\"diag\",\"text_hex\":\"{}\",\"what\":{:?}}}", k + 1, to_hex(&t), w); return; }
+        }
+        println!("{{\"found\":false,\"tried\":{}}}", count);
         return;
     }
     if args.len() >= 3 && args[1] == "replay-ws-symbols" {
